@@ -13,7 +13,7 @@ def run(cmd, cwd, timeout=600):
         return 124, "TIMEOUT"
 def main():
     want = [a for a in sys.argv[1:] if not a.startswith('--')]
-    base = '/tmp/seed5' if '--round5' in sys.argv else '/tmp/seed4' if '--round4' in sys.argv else '/tmp/seed3' if '--round3' in sys.argv else ('/tmp/seed2' if '--round2' in sys.argv else '/tmp/seed')
+    base = '/tmp/seed6' if '--round6' in sys.argv else '/tmp/seed5' if '--round5' in sys.argv else '/tmp/seed4' if '--round4' in sys.argv else '/tmp/seed3' if '--round3' in sys.argv else ('/tmp/seed2' if '--round2' in sys.argv else '/tmp/seed')
     for d in sorted(glob.glob(base + '/C*-out/[AB]')):
         pid = re.search(r'(C\d+)-out', d).group(1); var = os.path.basename(d)
         if base.endswith('seed2'):
@@ -24,6 +24,8 @@ def main():
             var = {'A': 'G', 'B': 'H'}[var]
         if base.endswith('seed5'):
             var = {'A': 'I', 'B': 'J'}[var]
+        if base.endswith('seed6'):
+            var = {'A': 'K', 'B': 'L'}[var]
         if want and pid not in want: continue
         name = "%s-%s" % (pid, var)
         out = os.path.join('/verif/seeded', name)
@@ -39,7 +41,7 @@ def main():
             placed = []
             runs = []
             for demo in demos:
-                m = re.search(r'((?:[\w./-]+/)?)' + re.escape(demo), demotxt.replace('/tmp/seed5', '').replace('/tmp/seed4', '').replace('/tmp/seed3', '').replace('/tmp/seed2', '').replace('/tmp/seed', ''))
+                m = re.search(r'((?:[\w./-]+/)?)' + re.escape(demo), demotxt.replace('/tmp/seed6', '').replace('/tmp/seed5', '').replace('/tmp/seed4', '').replace('/tmp/seed3', '').replace('/tmp/seed2', '').replace('/tmp/seed', ''))
                 sub = ''
                 for mm in re.finditer(r'((?:internal/(?:client|server)|internal)/)' + re.escape(demo), demotxt):
                     sub = mm.group(1); break
